@@ -58,14 +58,15 @@ def ext_of(layout: str) -> str:
     return EXT[family(layout)]
 
 
-def build(layout: str, members: list[dict], *, dict_size: int | None = None, substreams: bool = True, bare_empty: bool = False) -> bytes:
+def build(layout: str, members: list[dict], *, dict_size: int | None = None, substreams: bool = True, bare_empty: bool = False,
+          declared_dict: int | None = None) -> bytes:
     """``dict_size`` (7z LZMA / LZMA2 folders: dictionary used and declared) and ``substreams`` (7z: write the SubStreamsInfo section)
     only matter for 7z layouts; a member's ``declared_size`` is honoured by the 7z writer (digests are left out then)."""
     fam = family(layout)
     if fam == "zip":
         return _zip(members, zipfile.ZIP_STORED if layout == "zip-stored" else zipfile.ZIP_DEFLATED)
     if fam == "7z":
-        return _7z(layout, members, dict_size, substreams, bare_empty)
+        return _7z(layout, members, dict_size, substreams, bare_empty, declared_dict)
     return _tar(members, {"tar": "w", "tar.gz": "w:gz", "tar.bz2": "w:bz2", "tar.xz": "w:xz"}[fam], TAR_FORMATS[tar_format(layout)])
 
 
@@ -143,7 +144,7 @@ def _tar(members, mode, fmt=tarfile.PAX_FORMAT) -> bytes:
     return bio.getvalue()
 
 
-def _7z(layout: str, members, dict_size=None, substreams=True, bare_empty=False) -> bytes:
+def _7z(layout: str, members, dict_size=None, substreams=True, bare_empty=False, declared_dict=None) -> bytes:
     parts = layout.split("-")
     enc = layout.endswith("-enchdr")
     if parts[1] == "mixed":
@@ -163,4 +164,4 @@ def _7z(layout: str, members, dict_size=None, substreams=True, bare_empty=False)
         # links / devices have no 7z form in this writer
     forged = any(e.get("declared_size") is not None for e in entries)
     return sevenz.make_7z(entries, coder=coder, layout=lay, encoded_header=enc, mixed_coders=mixed, dict_size=dict_size,
-                          with_substreams=substreams, with_crc=not forged, bare_empty=bare_empty)
+                          with_substreams=substreams, with_crc=not forged, bare_empty=bare_empty, declared_dict=declared_dict)
